@@ -31,6 +31,10 @@ def annotated_base(rng, dt):
         node = {"k": kind, "via": "ctor", "args": [node, other]}
     elif r < 0.4:
         node = {"k": "Product", "via": "fn", "args": [{"k": "ScalarMul", "n": n, "dt": dt, "c": 2.0}, node]}
+    elif r < 0.55 and name in ("SelfAdjoint", "PSD"):
+        # a scalar multiple of a declared Hermitian operator: real multiples stay Hermitian, complex ones do not (c A)^H = conj(c) A
+        c = S.pick(rng, [-2.0, 0.5] + ([{"re": 1.0, "im": 2.0}, {"re": 0.0, "im": -1.0}, {"re": -0.5, "im": 0.5}] * 2 if dt in P.CPLX else []))
+        node = {"k": "Scaled", "c": c, "side": S.pick(rng, ["l", "r"]), "arg": node}
     return node
 
 
